@@ -11,6 +11,7 @@ import (
 	"context"
 	"encoding/hex"
 	"fmt"
+	"os"
 	"sort"
 	"strconv"
 	"strings"
@@ -347,8 +348,20 @@ func (r *runner) doItem(it Item) {
 // RunSchedule executes one schedule inside the current synctest bubble.
 func RunSchedule(sc *Schedule, w *bufio.Writer, wd *vhook.Watchdog, reached map[string]int) {
 	r := &runner{w: w, wd: wd, s: vhook.New(), calls: map[int]*call{}, sid: sc.ID, minIdle: time.Duration(sc.MinIdle) * Unit}
-	lock.VerifStep = r.s.Step
-	semaphore.VerifStep = r.s.Step
+	// labels starting with "X" are sentinels (anchors.json): yield points that exist only because the code's shape deviates
+	// from the model's. SCHED_XPARK=0 makes them transparent (the run is compared with the model at the model's own
+	// granularity); otherwise they park like every other label (the window they open is exhibited to the oracles).
+	step := r.s.Step
+	if os.Getenv("SCHED_XPARK") == "0" {
+		step = func(label string) {
+			if strings.HasPrefix(label, "X") {
+				return
+			}
+			r.s.Step(label)
+		}
+	}
+	lock.VerifStep = step
+	semaphore.VerifStep = step
 	defer func() {
 		lock.VerifStep = nil
 		semaphore.VerifStep = nil
